@@ -232,10 +232,10 @@ func (p *Path) callFunction(fn *ssa.Function, args []Value, bindings []Value) (r
 	if rd, ok := p.eng.redirects[name]; ok {
 		fn = rd
 	}
+	// SSA bodies of dependency packages are built lazily; never look at fn.Blocks before the
+	// owning package is known to be completely built (another worker may be building it)
+	p.eng.ensureBuilt(fn)
 	if fn.Blocks == nil {
-		if fn.Pkg != nil {
-			fn.Pkg.Build()
-		}
 		if fn.Blocks == nil {
 			if p.tolerant {
 				return VOpaque{"extern " + name}
